@@ -16,6 +16,7 @@ from .interp import PyRaise, OutOfReach, make_exc, PathEnd
 # uninterpreted operations shared by code and specifications
 POW = z3.Function('POW', Real, Real, Real)
 FLOAT_MAX_INT = z3.IntVal(2 ** 1024 - 2 ** 970)
+DBL_MAX_R = z3.RealVal(2 ** 1024 - 2 ** 971)
 DATE_MIN_US = z3.IntVal(-62135596800 * 10 ** 6)
 DATE_MAX_US = z3.IntVal(253402300800 * 10 ** 6 - 1)
 STR_OF_INT = z3.Function('STR_OF_INT', Int, Str)
@@ -289,7 +290,10 @@ def num_binop(ip, op, a, b, ka, kb):
                 return I(z3.ToInt(POW(z3.ToReal(x), z3.ToReal(y))))
             if ip.ctx.branch(z3.Or(x >= FLOAT_MAX_INT, x <= -FLOAT_MAX_INT)):
                 raise_('OverflowError', 'int too large to convert to float')
-            return R(POW(z3.ToReal(x), z3.ToReal(y)))
+            p = POW(z3.ToReal(x), z3.ToReal(y))
+            if ip.ctx.branch(z3.Or(p > DBL_MAX_R, p < -DBL_MAX_R)):
+                raise_('OverflowError', '(34, Numerical result out of range)')
+            return R(p)
     # int -> float coercion of the int operand: OverflowError iff it does not fit a double
     for v, kk in ((a, ka), (b, kb)):
         if kk == 'int' and not isinstance(v, C):
@@ -323,11 +327,11 @@ def num_binop(ip, op, a, b, ka, kb):
             raise_('ZeroDivisionError', '0.0 cannot be raised to a negative power')
         if ip.ctx.branch(z3.And(x < 0, z3.Not(z3.IsInt(y)))):
             return S(VOther(z3.IntVal(-5)))           # a complex number: an unknown non-BareScript value
-        # float pow: OverflowError only if the result exceeds DBL_MAX (necessary: base not in {0, 1, -1}, exponent
-        # non-zero) — over-approximated as "may"
-        if ip.ctx.branch(z3.And(x != 0, x != 1, x != -1, y != 0)) and ip.ctx.choice('pow_overflow'):
+        # float pow: OverflowError iff the (mathematical) result exceeds DBL_MAX
+        p = POW(x, y)
+        if ip.ctx.branch(z3.Or(p > DBL_MAX_R, p < -DBL_MAX_R)):
             raise_('OverflowError', '(34, Numerical result out of range)')
-        return R(POW(x, y))
+        return R(p)
     raise OutOfReach(f'numeric operator {op}')
 
 
